@@ -104,18 +104,21 @@ theorem split_bound_boundaries_counterexample :
 example :
     (findBestBoundaryNear [⟨90, 20⟩, ⟨110, 70⟩, ⟨300, 100⟩] 100 25).map (·.pos) = some 110 := by decide
 
-/-- **split_utf8 needs `boundaries = nil`.** `SplitToSize` trims the remaining text but shifts
-the boundaries by the split position only, so a boundary that was on a character boundary of
-the text drifts by the number of whitespace bytes trimmed: "aaaaaaaa␠␠日本語日本語" at 10
-characters with boundaries at 8 and 16 (both on character boundaries) is cut inside "語".
-Both observed APIs pass `nil`; with caller-supplied boundaries only termination and
-conservation (`C13.split_conserves`, any boundaries) are claimed. -/
+/-- **split_utf8 with boundaries needs boundaries ON character boundaries.** A supplied boundary
+is used as it is: "aaaaaaaa␠␠日本語日本語" at 10 characters with a boundary at 11 (inside the
+first "日") is cut inside that character.  For boundaries on character boundaries of the text
+UTF-8 integrity and character conservation are theorems (`C13Boundaries.split_utf8_aligned`,
+`split_conserves_characters_aligned`), and every list `DetectBoundaries` returns is one
+(`C13Boundaries.detect_boundaries_aligned`).  Until fix cf372da this theorem had the witness
+"boundaries at 8 and 16, both on character boundaries": `SplitToSize` trimmed the remaining
+text but shifted the boundaries by the split position only, so they drifted by the white
+space trimmed. -/
 theorem split_utf8_boundaries_counterexample :
     let c : SizeConfig := { maxValue := 10, maxUnit := .characters, tpcNum := 1, tpcDen := 4, sem := true }
     let text : Str := [97,97,97,97,97,97,97,97, 32,32, 0xE6,0x97,0xA5, 0xE6,0x9C,0xAC, 0xE8,0xAA,0x9E,
       0xE6,0x97,0xA5, 0xE6,0x9C,0xAC, 0xE8,0xAA,0x9E]
-    validUtf8 text = true ∧ validUtf8 (text.take 8) = true ∧ validUtf8 (text.take 16) = true
-      ∧ ¬ ∀ p ∈ splitToSize c text [⟨8, 70⟩, ⟨16, 70⟩], validUtf8 p = true := by
+    validUtf8 text = true ∧ validUtf8 (text.take 11) = false
+      ∧ ¬ ∀ p ∈ splitToSize c text [⟨11, 70⟩], validUtf8 p = true := by
   decide +kernel
 
 /-! ## the size bound through `ChunkDocumentWithConfig` and for the presets -/
